@@ -217,6 +217,13 @@ def trace_decode(o):
         out.append(k + ":" + unhx(h).decode("utf-8", "replace"))
     return out
 
+def xcheck(cov, violations, pid, projs, om, limit=3):
+    """kernel cross-check of the extracted evaluator on a sample of this run's project cases"""
+    n, bad = vm_crosscheck_projects(projs, om, limit)
+    cov["vm_compute_crosschecked"] = cov.get("vm_compute_crosschecked", 0) + n
+    for b in bad[:2]:
+        violations.append({"found": False, "replay": {"property": pid, "broken": "extracted evaluator disagrees with vm_compute (extraction/driver tie)", "detail": b}})
+
 def proj_violation(pid, what, p, oi, om, found=True, extra=None):
     r = {"property": pid, "what": what, "project": p.to_json(),
          "implementation": obs_summary(oi), "model(spec)": obs_summary(om) if om else None,
@@ -441,6 +448,7 @@ def check_C02(tier_, sd, consts_ok, consts_detail):
                 fail_input = oi["verdict"] == "ok" and any(oi["F"].get(gen.out_name(q.names[i])) != exp.get(i) for i in req if i in exp)
                 violations.append(proj_violation("C02", "coordinator trace / verdict / bytes differ from Run.txtpp_run on the same schedule (correspondence Coord.handle vs run_internal)",
                                                  q, oi, om, found=fail_input))
+        xcheck(cov, violations, "C02", [q for (_, q, _) in runs[::97]], mouts[::97], limit=2)
     return {"coverage": cov, "violations": violations}
 
 def check_C03(tier_, sd, consts_ok, consts_detail):
@@ -490,6 +498,7 @@ def check_C03(tier_, sd, consts_ok, consts_detail):
         elif (oi["verdict"], oi["F"], oi["T"]) != (om["verdict"], om["F"], om["T"]) and len(violations) < 5:
             violations.append(proj_violation("C03", "aliased inputs: trace/bytes differ from the model", q, oi, om, found=False))
     cov["evaluations"] += len(dprojs); cov["aliased_input_cases"] = len(dprojs)
+    xcheck(cov, violations, "C03", dprojs, dm)
     return {"coverage": cov, "violations": violations}
 
 def check_C05(tier_, sd, consts_ok, consts_detail):
@@ -516,6 +525,7 @@ def check_C05(tier_, sd, consts_ok, consts_detail):
         if (oi["verdict"], oi["T"], oi["F"]) != (om["verdict"], om["T"], om["F"]) and len(violations) < 5:
             violations.append(proj_violation("C05", "trace / verdict / bytes differ from Run.txtpp_run on the same schedule", q, oi, om, found=False))
     cov["runs_with_reachable_cycle"] = ncyc
+    xcheck(cov, violations, "C05", [q for (_, q, _) in runs[::131]], mouts[::131], limit=2)
     return {"coverage": cov, "violations": violations}
 
 # ------------------------------------------------------------------ generated projects: C01, C12, C13, C16
@@ -572,6 +582,7 @@ def check_C01(tier_, sd, consts_ok, consts_detail):
            "verdicts(impl,model)": {"%s/%s" % k: v for k, v in verd.items()}, "input_distribution": dist_of(projs),
            "golden_fixture_files_checked": nfx,
            "samples": [projs[0].to_json()["files"]]}
+    xcheck(cov, violations, "C01", projs, om)
     return {"coverage": cov, "violations": violations}
 
 def fixture_projects():
@@ -669,6 +680,7 @@ def check_C13(tier_, sd, consts_ok, consts_detail):
                    "plus sources ending in an ordinary text line; distinct_nontrivial = distinct (on, off) output pairs",
            "relation_distribution": dict(rel), "text_line_ending_cases": ntl, "input_distribution": dist_of(base),
            "samples": [{"on": short(oi[0]["F"].get(gen.out_name(base[0].srcs[0]))), "off": short(oi[n]["F"].get(gen.out_name(base[0].srcs[0])))}]}
+    xcheck(cov, violations, "C13", on + off, om)
     return {"coverage": cov, "violations": violations}
 
 def le_of_source(data):
@@ -742,6 +754,7 @@ def check_C12(tier_, sd, consts_ok, consts_detail):
                    "plus sources whose first line is 10 .. 20000 bytes long (around the 8 KiB and 16 KiB buffer sizes), implementation only; "
                    "distinct_nontrivial = distinct (ending, bytes) of generated files with at least one line terminator",
            "scan_distribution": dict(classes), "input_distribution": dist_of(projs), "samples": [repr(x[1][:120]) for x in list(nontriv)[:2]]}
+    xcheck(cov, violations, "C12", projs, om)
     return {"coverage": cov, "violations": violations}
 
 def check_C16(tier_, sd, consts_ok, consts_detail):
@@ -815,6 +828,7 @@ def check_C16(tier_, sd, consts_ok, consts_detail):
                    "(b) line sequences (directive look-alikes, blanks, tag names) escaped with a write directive, optionally with a stored tag around: output must equal the lines; distinct_nontrivial = distinct correct outputs",
            "identity_cases": len(projs), "write_roundtrip_cases": len(esc),
            "samples": [projs[1].files[0][1].decode(), esc[1].files[0][1].decode()]}
+    xcheck(cov, violations, "C16", [p for p in projs + esc], om)
     return {"coverage": cov, "violations": violations}
 
 # ------------------------------------------------------------------ C14 tags
@@ -951,6 +965,7 @@ def check_C06(tier_, sd, consts_ok, consts_detail):
                    "observed: verdict, and bytes + mtime + inode of every output before vs after; distinct_nontrivial = distinct (project, tampering)",
            "built_projects": len(built), "verdicts_by_tampering": {"%s/%s" % k: v for k, v in verd.items()},
            "samples": [{"tamper": meta[1][1], "verdict": oi[1]["verdict"]}]}
+    xcheck(cov, violations, "C06", steps, om)
     return {"coverage": cov, "violations": violations}
 
 def check_C07(tier_, sd, consts_ok, consts_detail):
@@ -991,6 +1006,7 @@ def check_C07(tier_, sd, consts_ok, consts_detail):
                    "distinct_nontrivial = distinct sets of generated paths that clean had to remove",
            "successful_build_then_clean": nrest, "input_distribution": dist_of(projs),
            "samples": [sorted(set(bi[0]["F"]) - set(dict(projs[0].files)))]}
+    xcheck(cov, violations, "C07", cl, cm)
     return {"coverage": cov, "violations": violations}
 
 JUNK = [b"", b"STALE TEXT\n", b"\xff\xfe\x00junk", "é".encode()[:1], b"x" * 300]
@@ -1050,6 +1066,7 @@ def check_C08(tier_, sd, consts_ok, consts_detail):
                    "empty, stale text, non-UTF-8 bytes, half a multi-byte character, 300 bytes; and from the built tree itself; verdict and (on success) the whole tree must equal the build from the clean tree; "
                    "distinct_nontrivial = distinct (project, pre-state shape)",
            "projects": len(base), "prestate_kinds": dict(kinds), "samples": [steps[0].what, steps[1].what]}
+    xcheck(cov, violations, "C08", steps, om)
     return {"coverage": cov, "violations": violations}
 
 def check_C09(tier_, sd, consts_ok, consts_detail):
@@ -1100,6 +1117,7 @@ def check_C09(tier_, sd, consts_ok, consts_detail):
                    "checked on the implementation: needed = build byte for byte, correct outputs (needed) and correct temp files (all modes) keep inode and mtime, stale ones are updated; plus source edits; "
                    "distinct_nontrivial = distinct (project, pre-state shape) under --needed",
            "files_left_untouched": untouched, "files_rewritten": rewritten, "samples": [steps[0].what]}
+    xcheck(cov, violations, "C09", steps, om)
     return {"coverage": cov, "violations": violations}
 
 DECOYS = [("/decoy.txt", b"decoy\n"), ("/a.txt.bak", b"bak\n"), ("/sub/txtpp", b"not a source\n"), ("/sub/notes.txtp", b"near miss\n"),
@@ -1152,6 +1170,7 @@ def check_C10(tier_, sd, consts_ok, consts_detail):
                    "the touched set must equal the model's event log; distinct_nontrivial = distinct (mode, touched set)",
            "mode_verdict_distribution": {"%s/%s" % k: v for k, v in modes.items()}, "decoys": [d for d, _ in DECOYS],
            "samples": [{"mode": projs[3].mode, "touched": oi[3]["U"]}]}
+    xcheck(cov, violations, "C10", projs, om)
     return {"coverage": cov, "violations": violations}
 
 # ------------------------------------------------------------------ C11 inputs and names
@@ -1228,6 +1247,7 @@ def check_C11(tier_, sd, consts_ok, consts_detail):
            "exhaustive": True, "exhaustive_bound": "name functions: names of <= %d tokens" % (5 if tier_ == "quick" else 6),
            "name_cases": len(ncases), "tree_cases": len(projs), "verdicts": dict(verd),
            "samples": [{"inputs": projs[2].inputs, "base": projs[2].base, "recursive": projs[2].recursive, "outputs": sorted(k for k, v in oi[2]["F"].items() if v is not None and k not in dict(projs[2].files))}]}
+    xcheck(cov, violations, "C11", projs, om)
     return {"coverage": cov, "violations": violations}
 
 _NAME_CACHE = {}
@@ -1551,5 +1571,6 @@ def check_C04(tier_, sd, consts_ok, consts_detail):
                    "checked: a fault in a required file => error verdict / non-zero exit; distinct_nontrivial = distinct (fault, position, graph)",
            "fault_verdict_distribution": {"%s/%s/%s" % k_: v for k_, v in sorted(dist.items())}, "cli_faults": cli,
            "samples": [{"fault": meta[7][0], "position": names[meta[7][1]], "required": meta[7][2], "verdict": oi[7]["verdict"]}]}
+    xcheck(cov, violations, "C04", projs, om)
     return {"coverage": cov, "violations": violations}
 check_C04.needs_cli = True
